@@ -38,6 +38,8 @@ class Scratch:
         if os.path.exists(lock) and not os.path.exists(os.path.join(self.rust, "Cargo.lock")):
             shutil.copy(lock, self.rust)
         self.target = os.path.join(self.dir, "target")
+        # debug builds of run_a_star write a flame graph under <workspace>/target/flamegraph and unwrap() the create_dir
+        os.makedirs(os.path.join(self.rust, "target"), exist_ok=True)
         self.kani_ready = False
         self.overlay_added = 0
         self.want_kani = want_kani
